@@ -99,7 +99,7 @@ def valuePredicates : List String := ["not"]
 
 /-- `PARAMETER_EFFECTORS` with `n_keys_asked` (checked against the extracted table) -/
 def paramEffectors : List (String × Option Nat) :=
-  [("dist", some 2), ("angle", some 3), ("dihedral", some 4), ("dihphase", some 4)]
+  [("angle", some 3), ("dihedral", some 4), ("dihphase", some 4), ("dist", some 2)]
 
 /-- `_is_param_effector(token)` -/
 def isEffectorTok (t : String) : Bool :=
